@@ -119,6 +119,13 @@ func (e *Evidence) Plan(c *Ctx) []hist.TxSpec {
 		e.reqs = append(e.reqs, a, b)
 		out = append(out, e.allege(c, gen[3], a, "allegation against v0 (will be found guilty)"))
 		out = append(out, e.allege(c, gen[2], b, "allegation against v1 (will be found "+bplan+")"))
+		// the same validator is accused twice more in the same block, under other request ids: one request
+		// per accused validator survives the block, the same one on every node
+		for k, by := range []*world.Validator{gen[2], gen[1]} {
+			d := &allegReq{id: fmt.Sprintf("%s-a%d-%d", e.Tag, k+2, c.H), target: gen[0], plan: "guilty", created: c.H, voted: map[string]bool{}}
+			e.reqs = append(e.reqs, d)
+			out = append(out, e.allege(c, by, d, "further allegation against v0 in the same block under another request id"))
+		}
 		// an outsider tries as well
 		u := c.W.Users[0]
 		sp := Build(c, "ALLEGATION", &evact.Allegation{RequestID: "outsider-" + e.Tag, ValidatorAddress: u.Addr, MaliciousAddress: gen[2].ValAddr, BlockHeight: c.H - 1, ProofMsg: "p"}, "allegation by a non-validator (must fail)", u)
@@ -202,6 +209,11 @@ func (e *Evidence) Plan(c *Ctx) []hist.TxSpec {
 			}
 			e.reqs = append(e.reqs, r)
 			out = append(out, e.allege(c, acts[len(acts)-1], r, "allegation ("+plan+")"))
+			if plan != "stall" {
+				d := &allegReq{id: fmt.Sprintf("%s-r2-%d", e.Tag, c.H), target: acts[0], plan: plan, created: c.H, voted: map[string]bool{}}
+				e.reqs = append(e.reqs, d)
+				out = append(out, e.allege(c, acts[len(acts)-2], d, "second allegation against the same validator in the same block ("+plan+")"))
+			}
 		}
 	}
 	return out
